@@ -1638,8 +1638,9 @@ func (e *extraIndenter) WriteByte(b byte) error {
 		e.bufWriter.WriteByte('\t')
 	}
 	e.bufWriter.WriteByte(tabwriter.Escape)
-	if body := trimmed[:len(trimmed)-1]; bytes.IndexByte(body, '\t') >= 0 {
-		// Tabs inside the line must not reach the tabwriter as cell separators.
+	if body := trimmed[:len(trimmed)-1]; bytes.ContainsAny(body, "\t\v\f") {
+		// Tabs, vertical tabs and form feeds inside the line must not reach the
+		// tabwriter as cell separators or flush controls.
 		e.bufWriter.WriteByte(tabwriter.Escape)
 		e.bufWriter.Write(body)
 		e.bufWriter.WriteByte(tabwriter.Escape)
